@@ -45,6 +45,9 @@ import Teleport.Lemmas.GracefulOrd
 import Teleport.Drv.C08
 import Teleport.Lemmas.SrcPaths
 import Teleport.Gen.Transitions
+import Teleport.Gen.PeerClose
+import Teleport.Lemmas.PeerClose
+import Teleport.Drv.C08p
 namespace Teleport
 namespace C08
 open Graceful
@@ -649,6 +652,337 @@ example : ∃ p, PReach PSt.init p ∧ p.pc = .joined ∧ p.ss.length = 2 ∧ p.
   have r18 := r17.step ⟨.sess 1 .xRet, rfl⟩
   have r19 := r18.step ⟨.join, rfl⟩
   exact ⟨_, r19, by decide⟩
+
+/-! ## Peer.Close as coded (Model/PeerClose): any number of sessions, accepted / served / dialled
+
+`Model/PeerClose` refines the `PSt` product above: `Peer.Close` statement by statement (`close(closeCh)`,
+listeners closed, `sessHub.rangeCallback` visiting one hub entry at a time and spawning one
+`sess.Close()` each, `count` receives from `errCh`, return), and the three ways a session comes to
+exist with the exact place of `sessHub.set` in each (names qualified `PeerClose.`). -/
+
+/-- **When `Peer.Close` has returned, every session it found in the hub has its `Close()` returned —
+    hence every handler entered before that `Close()` has finished with its genuine reply written.**
+    For every interleaving of any number of sessions (accepted, served, dialled; established before,
+    while or after `Peer.Close` runs), in every reachable state in which `Peer.Close` has returned:
+    `closeCh` is closed and the listeners no longer accept; for EVERY session the range callback ran
+    for, `sess.Close()` has returned; every session that was in the hub when the range started was
+    visited, or has left the hub in the meantime (`sessHub.delete` by another `Close()` of that session
+    or by its own `readDisconnected` — `hub = false` after `sessHub.set` was done); every session
+    record is a reachable state of the one-session machine, so the per-session theorems apply: in a
+    visited session whose closer ran to its end on an intact connection, every CALL handler entered
+    before closeStart has finished and its reply was written OK, and every call that passed `write`'s
+    status test has completed with the peer's reply. -/
+theorem C08_peer_close_returns_after_all_sessions (p : PeerClose.PSt)
+    (r : PeerClose.PReach PeerClose.PSt.init p) (hr : p.pc = .ret) :
+    p.chClosed = true ∧ p.lis = false ∧
+    (∀ i ∈ p.visited, ∃ s, p.ss[i]? = some s ∧ s.st.closeReturned = true) ∧
+    (∀ i ∈ p.must, i ∈ p.visited ∨ ∃ s, p.ss[i]? = some s ∧ s.hub = false ∧ s.setDone = true) ∧
+    (∀ s ∈ p.ss, Reach St.init s.st) ∧
+    (∀ i ∈ p.visited, ∀ s, p.ss[i]? = some s → s.st.closer = .ret → s.st.lost = false →
+        (∀ h ∈ s.st.hs, h.kind = .call → h.ebc = true → h.pc = .fin ∧ h.res = .ok) ∧
+        (∀ c ∈ s.st.cs, c.chk = true → c.pc = .done .reply)) := by
+  have hI := PeerClose.pinv_reach r
+  have hp := PeerClose.ret_pend_nil hI hr
+  refine ⟨hI.ch (by rw [hr]; decide), hI.lis (by rw [hr]; decide), ?_, ?_, fun s hs => (hI.good s hs).reach, ?_⟩
+  · intro i hi
+    rcases hI.vis i hi with h | h
+    · rw [hp] at h; cases h
+    · exact h
+  · intro i hi
+    rcases hI.cover (by rw [hr]; decide) i hi with h | ⟨s, h1, h2⟩
+    · exact Or.inl h
+    · obtain ⟨s', h1', h3⟩ := hI.mustset i hi
+      rw [h1] at h1'
+      cases h1'
+      exact Or.inr ⟨s, h1, h2, h3⟩
+  · intro i _ s hk hc hl
+    have hR := (hI.good s (List.mem_of_getElem? hk)).reach
+    refine ⟨fun h hm hkd he => C08_entered_handlers_reply s.st hR hl (by rw [hc]; decide) h hm hkd he, ?_⟩
+    intro c hm hk
+    have h := C08_issued_calls s.st hR c hm hk
+    obtain ⟨res, hres⟩ := h.2.2 (by rw [hc]; decide)
+    rcases h.1 res hres with h2 | h2
+    · rw [h2] at hres; exact hres
+    · rw [hl] at h2; cases h2
+
+/-- non-vacuity: an accepted and a dialled session, a handler entered on the first before `Peer.Close`;
+    `Peer.Close` runs to its return; both were visited. -/
+def peerExRun : List PeerClose.PEv :=
+  [.accept, .hookOk 0, .goLive 0, .dial, .hookOk 1, .hubSet 1,
+   .sess 0 (.envCall 7), .sess 0 .rTop, .sess 0 .rRead, .sess 0 .rCheck, .sess 0 .rAdd, .sess 0 (.hEnter 0),
+   .pStart, .pLis, .pRange, .pVisit 1, .pVisit 0, .pRangeEnd,
+   .sess 0 .xStart, .sess 1 .xStart, .sess 1 .xHubdel, .sess 1 .xCtxWait, .sess 1 .xCallWait, .sess 1 .xStClosed,
+   .sess 1 .xSock, .sess 1 .xRet, .pRecv 1, .sess 0 .xHubdel,
+   .sess 0 (.hBody 0), .sess 0 (.hCheck 0), .sess 0 (.hWrite 0), .sess 0 (.hFin 0),
+   .sess 0 .xCtxWait, .sess 0 .xCallWait, .sess 0 .xStClosed, .sess 0 .xSock, .sess 0 .xRet, .pRecv 0, .pRet]
+
+example : ∃ p, PeerClose.PReach PeerClose.PSt.init p ∧ p.pc = .ret ∧ p.visited = [0, 1] ∧ p.must = [0, 1] ∧
+    ∃ s, p.ss[0]? = some s ∧ s.st.closer = .ret ∧ s.st.lost = false ∧
+      ∃ h ∈ s.st.hs, h.kind = .call ∧ h.ebc = true ∧ h.pc = .fin ∧ h.res = .ok := by
+  have h : PeerClose.prun PeerClose.PSt.init peerExRun =
+      some ((PeerClose.prun PeerClose.PSt.init peerExRun).getD PeerClose.PSt.init) := by decide
+  exact ⟨_, PeerClose.prun_reach _ h, by decide, by decide, by decide, by decide⟩
+
+/-- **Peer.Close returns (liveness, any number of sessions).** In every reachable state of the peer
+    system in which no internal step is enabled (no step of `Peer.Close`, no internal step of any
+    session, no `Close()` of a session `Peer.Close` spawned one for), `Peer.Close` has been called, and
+    in the sessions it is closing no handler body is still running and every written call has been
+    answered or the connection is lost: `Peer.Close` HAS returned, and so has the `Close()` of every
+    session it visited. `Peer.Close` is never parked at a receive that cannot be served. The internal
+    steps of the sessions are finite (`C08_measure`, `C08_peer_measure_session`); that `Peer.Close`'s own
+    steps are finite (one per statement group, one visit and one receive per hub entry) is visible from
+    `pstep` but not stated as a theorem. -/
+theorem C08_peer_close_waits (p : PeerClose.PSt) (r : PeerClose.PReach PeerClose.PSt.init p)
+    (hq : PeerClose.PQuiescent p) (hc : p.pc ≠ .idle) (he : PeerClose.PEnvDone p) :
+    p.pc = .ret ∧ ∀ i ∈ p.visited, ∃ s, p.ss[i]? = some s ∧ s.st.closeReturned = true := by
+  have hr := PeerClose.peer_close_returns (PeerClose.pinv_reach r) hq hc he
+  exact ⟨hr, (C08_peer_close_returns_after_all_sessions p r hr).2.2.1⟩
+
+/-- **The only thing `Peer.Close` waits for is a session's `Close()`.** Reachable, no internal step
+    enabled, `Peer.Close` called and NOT returned: then some session it spawned a `Close()` for has not
+    returned from it (and for that session `C08_close_waits_only_for_env` says what it waits for: a
+    running handler or the peer's answer on an intact connection). -/
+theorem C08_peer_close_waits_only_for_sessions (p : PeerClose.PSt) (r : PeerClose.PReach PeerClose.PSt.init p)
+    (hq : PeerClose.PQuiescent p) (hc : p.pc ≠ .idle) (hnr : p.pc ≠ .ret) :
+    ∃ i ∈ p.visited, ∃ s, p.ss[i]? = some s ∧ s.st.closeReturned = false := by
+  apply Classical.byContradiction
+  intro hne
+  apply hnr
+  refine PeerClose.peer_returns_of_sessions (PeerClose.pinv_reach r) hq hc ?_
+  intro i hi s hk
+  cases h : s.st.closeReturned with
+  | true => rfl
+  | false => exact absurd ⟨i, hi, s, hk, h⟩ hne
+
+/-- every internal step of a session — and the `Close()` that `Peer.Close` spawns — strictly decreases
+    that session's measure `mu`. -/
+theorem C08_peer_measure_session (s t : St) (e : Graceful.Ev) (hi : e.internal = true ∨ e = .xStart)
+    (hs : step s e = some t) : mu t < mu s := by
+  rcases hi with hi | hi
+  · exact mu_step hi hs
+  · subst hi
+    simp only [step] at hs
+    split at hs
+    · rename_i hc
+      have hM := rWf_mono s.reader (s.status == .ok) s.cs.length
+      split at hs <;> cases hs <;> simp_all [mu, rW, xW, show (Status.closing == Status.ok) = false from by decide] <;> omega
+    · cases hs
+
+/-- the state `waitingSt`-like for the peer: one accepted session with a handler in its body,
+    `Peer.Close` parked at its receive. -/
+def peerWaitRun : List PeerClose.PEv :=
+  [.accept, .hookOk 0, .goLive 0,
+   .sess 0 (.envCall 7), .sess 0 .rTop, .sess 0 .rRead, .sess 0 .rCheck, .sess 0 .rAdd, .sess 0 .rTop, .sess 0 (.hEnter 0),
+   .pStart, .pLis, .pRange, .pVisit 0, .pRangeEnd, .sess 0 .xStart, .sess 0 .xHubdel]
+
+/-- non-vacuity of `C08_peer_close_waits_only_for_sessions` (and of the hypotheses of
+    `C08_peer_close_waits` except `PEnvDone`): `Peer.Close` legitimately waits for session 0, whose
+    closer waits for the running handler. -/
+example : ∃ p, PeerClose.PReach PeerClose.PSt.init p ∧ p.pc = .recv ∧ p.visited = [0] ∧
+    ∃ s, p.ss[0]? = some s ∧ s.st.closeReturned = false ∧ s.st.closer = .hubdel ∧
+      ∃ h ∈ s.st.hs, h.pc = .entered ∧ h.ebc = true := by
+  have h : PeerClose.prun PeerClose.PSt.init peerWaitRun =
+      some ((PeerClose.prun PeerClose.PSt.init peerWaitRun).getD PeerClose.PSt.init) := by decide
+  exact ⟨_, PeerClose.prun_reach _ h, by decide, by decide, by decide⟩
+
+/-- **Which new connections `Peer.Close` refuses: the listeners', nothing else.** Once `Peer.Close` has
+    closed the listeners (`pLis` and later, in every reachable state) no `accept` step is enabled; but
+    `ServeConn` and `Dial` are enabled in EVERY state — before, during and after `Peer.Close` — because
+    neither consults `closeCh` or any other record of the close (tie A: `C08_peer_close_order`). -/
+theorem C08_peer_close_refuses_only_listener_accepts (p : PeerClose.PSt)
+    (r : PeerClose.PReach PeerClose.PSt.init p) :
+    (2 ≤ p.pc.rank → PeerClose.pstep p .accept = none) ∧
+    (PeerClose.pstep p .serveConn).isSome = true ∧ (PeerClose.pstep p .dial).isSome = true := by
+  refine ⟨?_, rfl, rfl⟩
+  intro h
+  have := (PeerClose.pinv_reach r).lis h
+  simp [PeerClose.pstep, this]
+
+/-- a `ServeConn` session serving a call, not yet in the hub; `Peer.Close` from call to return. -/
+def slipRun : List PeerClose.PEv :=
+  [.serveConn, .hookOk 0,
+   .sess 0 (.envCall 7), .sess 0 .rTop, .sess 0 .rRead, .sess 0 .rCheck, .sess 0 .rAdd, .sess 0 (.hEnter 0),
+   .pStart, .pLis, .pRange, .pRangeEnd, .pRet]
+
+/-- **A serving session that is not yet in the hub survives `Peer.Close`, with a handler in flight
+    (finding).** `ServeConn` and `Dial` start the reader (`AnywayGo(sess.startReadAndHandle)`) BEFORE
+    `p.sessHub.set(sess)`. Reachable: a session made by `ServeConn` is live (status Ok), has read a CALL
+    and ENTERED its handler; its goroutine stands just before `sessHub.set`. `Peer.Close` is called,
+    closes the listeners, ranges over the hub (empty), receives nothing and RETURNS — while the handler
+    entered before `Peer.Close` was called is still in its body, and the session is never closed: after
+    `hubSet` it is in the hub of the closed peer, status Ok, nobody closing it. So the unqualified
+    statement "when Peer.Close has returned every session's Close has returned / every handler entered
+    before has finished" is FALSE of the code; `C08_peer_close_returns_after_all_sessions` is the
+    statement that holds (sessions in the hub when the range starts). Real code: case
+    `c08p roles=a late=us sched=1.s1,1.rm,1.ra,1.en1,pcl,DRAIN` (the harness parks the `ServeConn`
+    goroutine in the `hubset` event hook): observation `late=alive:hrun`, oracle
+    `c08:peer-close-missed-unindexed-session`. -/
+theorem C08_peer_close_unindexed_session_survives_witness :
+    ∃ p q, PeerClose.PReach PeerClose.PSt.init p ∧ p.pc = .ret ∧ p.must = [] ∧ p.visited = [] ∧
+      (∃ s, p.ss[0]? = some s ∧ s.ph = .live ∧ s.hub = false ∧ s.st.status = .ok ∧ s.st.closer = .idle ∧
+        s.st.closeReturned = false ∧ ∃ h ∈ s.st.hs, h.kind = .call ∧ h.pc = .entered ∧ h.ebc = true) ∧
+      PeerClose.pstep p (.hubSet 0) = some q ∧
+      (∃ s, q.ss[0]? = some s ∧ s.hub = true ∧ s.st.status = .ok ∧ s.st.closer = .idle) := by
+  have h : PeerClose.prun PeerClose.PSt.init slipRun =
+      some ((PeerClose.prun PeerClose.PSt.init slipRun).getD PeerClose.PSt.init) := by decide
+  refine ⟨(PeerClose.prun PeerClose.PSt.init slipRun).getD PeerClose.PSt.init,
+    (PeerClose.prun PeerClose.PSt.init (slipRun ++ [.hubSet 0])).getD PeerClose.PSt.init,
+    PeerClose.prun_reach _ h, by decide, by decide, by decide, by decide, by decide, by decide⟩
+
+/-- a connection accepted before the listener is closed, its `PostAccept` hooks still running while
+    `Peer.Close` runs from call to return; then the hooks pass. -/
+def acceptSlipRun : List PeerClose.PEv :=
+  [.accept, .pStart, .pLis, .pRange, .pRangeEnd, .pRet, .hookOk 0, .goLive 0]
+
+/-- **A connection whose accept hooks are running survives `Peer.Close`.** The accept goroutine of
+    `serveListener` is not joined by `Peer.Close` and checks nothing after its hooks: a connection
+    accepted before the listener was closed becomes a live session in the hub of the closed peer
+    (status Ok) after `Peer.Close` has returned. No handler was in flight when `Peer.Close` was called,
+    so this is not a violation of C08's text; it bounds what "peer closed" means (C07: the session is
+    healthy and indexed, the peer that owns it has been closed). Real code: `c08p … late=ha`:
+    `late=alive`; likewise `late=hs`, `hd` (hooks of `ServeConn` / `Dial`) and `ns`, `nd` (`ServeConn` /
+    `Dial` called after `Peer.Close` returned). -/
+theorem C08_peer_close_accept_in_flight_survives_witness :
+    ∃ p, PeerClose.PReach PeerClose.PSt.init p ∧ p.pc = .ret ∧ p.lis = false ∧
+      ∃ s, p.ss[0]? = some s ∧ s.role = .accept ∧ s.ph = .live ∧ s.hub = true ∧ s.st.status = .ok ∧
+        s.st.closer = .idle := by
+  have h : PeerClose.prun PeerClose.PSt.init acceptSlipRun =
+      some ((PeerClose.prun PeerClose.PSt.init acceptSlipRun).getD PeerClose.PSt.init) := by decide
+  exact ⟨_, PeerClose.prun_reach _ h, by decide, by decide, by decide⟩
+
+/-- **`Peer.Close` does not wait for a session that another `Close()` is already closing.** A session
+    whose own `Close()` (called by its user) has passed `sessHub.delete` and waits for a running handler
+    is no longer in the hub: `Peer.Close` returns while that handler runs. That `Close()` call itself has
+    not returned (its caller still waits; `C08_close_waits` applies to it) — the second disjunct of
+    `C08_peer_close_returns_after_all_sessions`'s coverage clause is real. -/
+theorem C08_peer_close_skips_session_closing_elsewhere_witness :
+    ∃ p, PeerClose.PReach PeerClose.PSt.init p ∧ p.pc = .ret ∧ p.visited = [] ∧
+      ∃ s, p.ss[0]? = some s ∧ s.setDone = true ∧ s.hub = false ∧ s.st.closer = .hubdel ∧
+        ∃ h ∈ s.st.hs, h.pc = .entered ∧ h.ebc = true := by
+  have h : PeerClose.prun PeerClose.PSt.init
+      [.accept, .hookOk 0, .goLive 0, .sess 0 (.envCall 7), .sess 0 .rTop, .sess 0 .rRead, .sess 0 .rCheck, .sess 0 .rAdd,
+       .sess 0 (.hEnter 0), .sess 0 .xStart, .sess 0 .xHubdel, .pStart, .pLis, .pRange, .pRangeEnd, .pRet] =
+      some ((PeerClose.prun PeerClose.PSt.init
+      [.accept, .hookOk 0, .goLive 0, .sess 0 (.envCall 7), .sess 0 .rTop, .sess 0 .rRead, .sess 0 .rCheck, .sess 0 .rAdd,
+       .sess 0 (.hEnter 0), .sess 0 .xStart, .sess 0 .xHubdel, .pStart, .pLis, .pRange, .pRangeEnd, .pRet]).getD
+        PeerClose.PSt.init) := by decide
+  exact ⟨_, PeerClose.prun_reach _ h, by decide, by decide, by decide⟩
+
+/-! ### tie A — `peer.Close` as it is in the source NOW (`Gen/PeerClose`, `Gen/Transitions`) -/
+
+section TieAPeer
+open SrcFlow
+
+def pcEvents : List PeerClose.PEv := [.pLis, .pRange, .pRangeEnd, .pRet]
+
+/-- the one step of `Peer.Close` the model enables in `p`. -/
+def pcNext (p : PeerClose.PSt) : Option (PeerClose.PEv × PeerClose.PSt) :=
+  match pcEvents.filterMap fun e => (PeerClose.pstep p e).map fun q => (e, q) with
+  | [x] => some x
+  | _ => none
+
+def pcTrace : Nat → PeerClose.PSt → List PeerClose.PEv
+  | 0, _ => []
+  | n + 1, p =>
+    match pcNext p with
+    | some (e, q) => e :: pcTrace n q
+    | none => []
+
+/-- the source statement groups of a step of `Peer.Close`. -/
+def pcKeys : PeerClose.PEv → List String
+  | .pStart => ["close:closeCh"]
+  | .pLis => ["closeall:listeners"]
+  | .pRange => ["range:sessHub"]
+  | .pRangeEnd => []
+  | .pRet => ["recvloop", "return"]
+  | _ => ["?"]
+
+/-- the order in which `PeerClose.pstep` enables `Peer.Close`'s steps (empty hub). -/
+def modelPeerClose : List String :=
+  (PeerClose.PEv.pStart :: ((PeerClose.pstep PeerClose.PSt.init .pStart).map (pcTrace 8)).getD []).flatMap pcKeys
+
+def pcModelled : List String := ["close:closeCh", "closeall:listeners", "range:sessHub", "recvloop", "return"]
+
+/-- every statement group the extractor may report for a `peer.Close` of the modelled shape. -/
+def pcAllowed : List String :=
+  ["close:closeCh", "lock", "snapshot:listeners", "unlock", "closeall:listeners", "call:deletePeer", "range:sessHub",
+   "recvloop", "close:callback-chan", "closeall:quic-listeners", "return"]
+
+/-- `f` holds of the statements of EVERY control-flow path of an establishment function on which the
+    Preparing→Ok swap is won (and there is such a path). -/
+def estAll (ps : List SrcPaths.Path) (f : List String → Bool) : Bool :=
+  let won := ps.filter fun p => p.any fun (e : SrcPaths.PEv) => e.kind == "cas" && e.out == "ok"
+  !won.isEmpty && won.all fun p => f (SrcPaths.keys p)
+
+/-- `Peer.Close` in its receive loop, one spawned `Close()` (of a session nobody has started to close)
+    outstanding. -/
+def pcRecvSt : PeerClose.PSt :=
+  { PeerClose.PSt.init with pc := .recv, count := 1, pend := [0], visited := [0], ss := [PeerClose.Sess.new .accept] }
+
+/-- **`peer.Close` in the source has the statement order, the callback and the receive loop of the
+    model, nobody but the listener loop reads `closeCh`, and `sessHub.set` stands where the model puts
+    it (tie A).** From the regenerated facts: (1) `peer.Close`'s own body consists only of statement
+    groups of the modelled shape, none of them conditional, and the modelled ones come in the order in
+    which `PeerClose.pstep` enables `pStart, pLis, pRange, pRangeEnd, pRet`: `close(closeCh)`, close every
+    listener, range over the hub, receive loop, return; the receive loop comes after the range and the
+    result channel is closed only after it; (2) the range callback increments the counter, spawns
+    (`MustGo`/`AnywayGo`/`go`: never dropped) a goroutine that sends `sess.Close()` on the channel, and
+    returns only `true` — an error never stops the range; (3) the receive loop runs exactly `counter`
+    times over that channel with no early exit — an error never ends the join; in the model `pRet` is
+    enabled only at `recvd = count` and `pRecv i` only once session `i`'s `Close()` has returned;
+    (4) `closeCh` is made in `NewPeer`, closed in `peer.Close` and read in `serveListener` only —
+    `Dial` and `ServeConn` never consult it, which is why `serveConn`/`dial` are enabled in every state
+    of the model and `accept` only while the listeners are open; (5) `sessHub.set` comes BEFORE the
+    Preparing→Ok swap in the accept goroutine (model: `hookOk` puts an `accept` session in the hub in
+    phase `hubbed`) and AFTER the reader is started in `ServeConn` and `Dial` (model: `hookOk` makes the
+    session live with `hub = false`; `hubSet` is a later step). Moving `sessHub.set`, adding a `closeCh`
+    check, stopping the range or the join on an error, or reordering the close changes a regenerated
+    fact and this theorem no longer checks. (5) is read off `Gen/Transitions`' control-flow paths: it holds on
+    EVERY path on which the swap is won. -/
+theorem C08_peer_close_order :
+    Gen.peerClose_missing = [] ∧ Gen.transitions_missing = [] ∧
+    Gen.peerclose_order.all pcAllowed.contains = true ∧
+    Gen.peerclose_order.filter pcModelled.contains = modelPeerClose ∧
+    modelPeerClose = pcModelled ∧
+    before "recvloop" "close:callback-chan" Gen.peerclose_order = true ∧
+    onlyAfter "recvloop" "close:callback-chan" Gen.peerclose_order = true ∧
+    -- (2) the callback
+    Gen.peerclose_callback.all
+      (["inc:counter", "spawn:MustGo", "spawn:AnywayGo", "spawn:go", "send:chan<-param.Close", "return:true"].contains) = true ∧
+    ["inc:counter", "send:chan<-param.Close", "return:true"].all Gen.peerclose_callback.contains = true ∧
+    count "inc:counter" Gen.peerclose_callback = 1 ∧ count "send:chan<-param.Close" Gen.peerclose_callback = 1 ∧
+    before "inc:counter" "return:true" Gen.peerclose_callback = true ∧
+    -- (3) the receive loop, and the model's guards
+    Gen.peerclose_recvloop = ["bound=callback-counter", "chan=callback-chan"] ∧
+    (PeerClose.pstep pcRecvSt .pRet).isNone = true ∧ (PeerClose.pstep pcRecvSt (.pRecv 0)).isNone = true ∧
+    -- (4) closeCh
+    Gen.peerclose_closech = ["NewPeer:make", "peer.Close:close", "peer.serveListener:copy"] ∧
+    ([PeerClose.PPc.idle, .chClosed, .lisClosed, .ranging, .recv, .ret].all fun pc =>
+      (PeerClose.pstep { PeerClose.PSt.init with pc := pc } .serveConn).isSome &&
+      (PeerClose.pstep { PeerClose.PSt.init with pc := pc } .dial).isSome &&
+      (PeerClose.pstep { PeerClose.PSt.init with pc := pc, lis := false } .accept).isNone) = true ∧
+    -- (5) where sessHub.set stands
+    Gen.tpaths_peer_serveListener_accept_missing = [] ∧ Gen.tpaths_peer_ServeConn_missing = [] ∧
+    Gen.tpaths_peer_Dial_missing = [] ∧
+    estAll Gen.tpaths_peer_serveListener_accept (fun k =>
+      before "stage:postAccept" "call:sessHub.set" k && before "call:sessHub.set" "cas:statusOk<-statusPreparing" k &&
+      before "cas:statusOk<-statusPreparing" "run:startReadAndHandle" k && count "call:sessHub.set" k == 1) = true ∧
+    estAll Gen.tpaths_peer_ServeConn (fun k =>
+      before "cas:statusOk<-statusPreparing" "spawn:startReadAndHandle" k &&
+      before "spawn:startReadAndHandle" "call:sessHub.set" k && count "call:sessHub.set" k == 1) = true ∧
+    estAll Gen.tpaths_peer_Dial (fun k =>
+      before "cas:statusOk<-statusPreparing" "spawn:startReadAndHandle" k &&
+      before "spawn:startReadAndHandle" "call:sessHub.set" k && count "call:sessHub.set" k == 1) = true ∧
+    ((PeerClose.prun PeerClose.PSt.init [.accept, .hookOk 0]).map fun p => p.ss.map fun s => (s.ph, s.hub)) =
+      some [(.hubbed, true)] ∧
+    ((PeerClose.prun PeerClose.PSt.init [.serveConn, .hookOk 0, .dial, .hookOk 1]).map fun p =>
+      p.ss.map fun s => (s.ph, s.hub)) = some [(.live, false), (.live, false)] := by
+  decide
+
+/-- non-vacuity: the model's order of `Peer.Close`, spelled out. -/
+example : modelPeerClose = ["close:closeCh", "closeall:listeners", "range:sessHub", "recvloop", "return"] := by decide
+
+end TieAPeer
 
 /-! ## tie A — the closer as it is in the source NOW (`Gen/Transitions`)
 
